@@ -23,7 +23,7 @@ def corpus_programs(tier):
     for p in families3.g_deep(tier): P.append((p, None))
     import families4
     for p in families4.g_wave4(tier): P.append((p, None))
-    for p in check_c04.g_modes() + check_c04.g_asm(): P.append((p, None))
+    for p in check_c04.g_modes() + check_c04.g_asm() + check_c04.g_hwconst(): P.append((p, None))
     # two 16-bit comparisons in one condition (each creates its own .ifstartN labels), in every pairing
     from cast import If, Block, ExprS, Inc, Index, While
     from families import V, C, A, B, mkprog
